@@ -277,6 +277,10 @@ func GenModel(t *rapid.T, maxRoutes int, withAggs bool) *Model {
 		m.Blacklist = append(m.Blacklist, f)
 	}
 	for i, n := 0, rapid.IntRange(0, 3).Draw(t, "nrw"); i < n; i++ {
+		if i > 0 && rapid.IntRange(0, 3).Draw(t, "repeatrule") == 0 {
+			m.Rewriters = append(m.Rewriters, m.Rewriters[rapid.IntRange(0, i-1).Draw(t, "which")]) // the same rule twice is applied twice
+			continue
+		}
 		m.Rewriters = append(m.Rewriters, GenRW(t))
 	}
 	if withAggs {
